@@ -4,6 +4,8 @@ package engine
 
 import (
 	"crypto/sha256"
+	"encoding/hex"
+	"encoding/json"
 	"fmt"
 	"go/token"
 	"go/types"
@@ -232,7 +234,15 @@ func init() {
 	externals["crypto/sha256.Sum256"] = func(fr *frame, a []value) value {
 		raw, ok := concBytes(a[0])
 		if !ok {
-			unsup("sha256 of symbolic bytes")
+			// hash of symbolic/opaque input: 32 opaque cells; equal iff the inputs are equal (collision freedom assumed),
+			// never equal to concrete bytes, not ordered
+			src := append([]value{}, byteCells(a[0])...)
+			out := make(array, 32)
+			for j := range out {
+				out[j] = boxCell{kind: "hash:sha256", v: tuple{src, j}}
+			}
+			fr.i.m.Stubs["sha256 of symbolic input as injective opaque token"]++
+			return out
 		}
 		h := sha256.Sum256(raw)
 		out := make(array, 32)
@@ -304,4 +314,118 @@ func init() {
 func init() {
 	externals["(*"+RepoMod+"/types.sdkError).ABCILog"] = func(fr *frame, a []value) value { return "<abci log>" }
 	externals["(*"+RepoMod+"/types.sdkError).Error"] = func(fr *frame, a []value) value { return "<sdk error>" }
+}
+
+// ---- signatures as a perfect signature scheme (unforgeability + correctness assumed) ----
+// Sign(priv,msg) returns a one-cell token (pub(priv), msg); Verify(pub,msg,sig) <=> sig is a token for exactly (pub,msg).
+func init() {
+	const tmEd = "github.com/tendermint/tendermint/crypto/ed25519."
+	const tmSecp = "github.com/tendermint/tendermint/crypto/secp256k1."
+	mkSign := func(scheme string, pubOf func(priv array) []value) externalFn {
+		return func(fr *frame, a []value) value {
+			priv := a[0].(array)
+			msg := append([]value{}, byteCells(a[1])...)
+			tok := boxCell{kind: "sig:" + scheme, v: tuple{array(pubOf(priv)), msg}}
+			return tuple{[]value{tok}, iface{}}
+		}
+	}
+	mkVerify := func(scheme string) externalFn {
+		return func(fr *frame, a []value) value {
+			pub := a[0].(array)
+			msg := byteCells(a[1])
+			sig := byteCells(a[2])
+			if len(sig) != 1 {
+				return false // raw bytes are never a valid signature (unforgeability)
+			}
+			tok, ok := sig[0].(boxCell)
+			if !ok || tok.kind != "sig:"+scheme {
+				return false
+			}
+			tp := tok.v.(tuple)
+			C := fr.i.m.C
+			eqPub := fr.i.deepEq(tp[0], pub)
+			_, eqMsg := fr.i.cmpCells(tp[1].([]value), msg)
+			return fr.i.boolv(C.And(eqPub, eqMsg))
+		}
+	}
+	externals["("+tmEd+"PrivKeyEd25519).Sign"] = mkSign("ed25519", func(priv array) []value { return append([]value{}, priv[32:]...) })
+	externals["("+tmEd+"PubKeyEd25519).VerifyBytes"] = mkVerify("ed25519")
+	externals["("+tmSecp+"PubKeySecp256k1).VerifyBytes"] = mkVerify("secp256k1")
+
+	// canonical JSON: identity on codec tokens, native on concrete bytes
+	sortJSON := func(fr *frame, a []value) (value, string) {
+		if raw, ok := concBytes(a[0]); ok {
+			var c interface{}
+			if err := json.Unmarshal(raw, &c); err != nil {
+				return nil, err.Error()
+			}
+			js, err := json.Marshal(c)
+			if err != nil {
+				return nil, err.Error()
+			}
+			return bytesVal(js), ""
+		}
+		return a[0], ""
+	}
+	externals[RepoMod+"/types.SortJSON"] = func(fr *frame, a []value) value {
+		v, e := sortJSON(fr, a)
+		if e != "" {
+			return tuple{[]value(nil), fr.i.mkError(e)}
+		}
+		return tuple{v, iface{}}
+	}
+	externals[RepoMod+"/types.MustSortJSON"] = func(fr *frame, a []value) value {
+		v, e := sortJSON(fr, a)
+		if e != "" {
+			panic(targetPanic{fr.i.mkError(e)})
+		}
+		return v
+	}
+
+	// the node's tx index (ante handler replay protection): the answer is a symbolic boolean
+	externals["(*github.com/tendermint/tendermint/node.Node).Config"] = func(fr *frame, a []value) value {
+		cfgPkg := fr.i.prog.ImportedPackage("github.com/tendermint/tendermint/config")
+		ct := cfgPkg.Type("Config").Type()
+		cv := zero(ct)
+		st := ct.Underlying().(*types.Struct)
+		for j := 0; j < st.NumFields(); j++ {
+			if st.Field(j).Name() == "RPC" {
+				rv := zero(st.Field(j).Type().Underlying().(*types.Pointer).Elem())
+				cv.(structure)[j] = &rv
+			}
+		}
+		return &cv
+	}
+	externals["github.com/tendermint/tendermint/rpc/client.NewHTTP"] = func(fr *frame, a []value) value {
+		t := fr.i.prog.ImportedPackage("github.com/tendermint/tendermint/rpc/client").Type("HTTP").Type()
+		v := zero(t)
+		return &v
+	}
+	txFn := func(fr *frame, a []value) value {
+		m := fr.i.m
+		var has value
+		if v, ok := m.Ghost["txindex.contains"]; ok {
+			has = v
+		} else {
+			has = symBool{m.C.BVar(m.uniq("txindex.contains"))}
+		}
+		rt := fr.i.prog.ImportedPackage("github.com/tendermint/tendermint/rpc/core/types").Type("ResultTx").Type()
+		if fr.i.condBool(has) {
+			v := zero(rt)
+			return tuple{&v, iface{}}
+		}
+		return tuple{(*value)(nil), fr.i.mkError("tx not found")}
+	}
+	externals["(*github.com/tendermint/tendermint/rpc/client.HTTP).Tx"] = txFn
+	externals["(*github.com/tendermint/tendermint/rpc/client.baseRPCClient).Tx"] = txFn
+}
+
+func init() {
+	externals["encoding/hex.EncodeToString"] = func(fr *frame, a []value) value {
+		if raw, ok := concBytes(a[0]); ok {
+			return hex.EncodeToString(raw)
+		}
+		fr.i.m.Stubs["hex text of symbolic/opaque bytes as placeholder"]++
+		return "<hex-of-symbolic-bytes>"
+	}
 }
